@@ -62,6 +62,7 @@ type Cfg struct {
 	Unauthed     string   `json:"unauthed"` // notfound | redirect | unauthorized
 	Providers    []string `json:"providers"`
 	Preserve     []string `json:"preserve"`
+	DefaultPaths bool     `json:"default_paths"` // Config.Paths' OK / NotOK targets left at authboss.New()'s defaults ("/")
 	OneTime      bool     `json:"onetime"` // the user type implements totp2fa.UserOneTime (TOTP replay protection)
 }
 
@@ -373,9 +374,11 @@ func newWorld(cfg Cfg, seed int64) (*World, error) {
 	p := &ab.Config.Paths
 	p.Mount = cfg.Mount
 	p.RootURL = rootURL
-	p.AuthLoginOK, p.ConfirmOK, p.ConfirmNotOK, p.LockNotOK = "/ok/login", "/ok/confirm", "/no/confirm", "/no/lock"
-	p.LogoutOK, p.OAuth2LoginOK, p.OAuth2LoginNotOK = "/ok/logout", "/ok/oauth2", "/no/oauth2"
-	p.RecoverOK, p.RegisterOK, p.TwoFactorEmailAuthNotOK = "/ok/recover", "/ok/register", "/no/2fa-email"
+	if !cfg.DefaultPaths {
+		p.AuthLoginOK, p.ConfirmOK, p.ConfirmNotOK, p.LockNotOK = "/ok/login", "/ok/confirm", "/no/confirm", "/no/lock"
+		p.LogoutOK, p.OAuth2LoginOK, p.OAuth2LoginNotOK = "/ok/logout", "/ok/oauth2", "/no/oauth2"
+		p.RecoverOK, p.RegisterOK, p.TwoFactorEmailAuthNotOK = "/ok/recover", "/ok/register", "/no/2fa-email"
+	}
 
 	if cfg.has("oauth2") {
 		w.tokSrv = httptest.NewServer(http.HandlerFunc(func(rw http.ResponseWriter, r *http.Request) {
@@ -553,6 +556,40 @@ func (w *World) tick(d int64) {
 		}
 	}
 	w.off += d
+}
+
+// nearDeadline: some decision the library takes by comparing the clock with a stored instant (lock
+// expiry, attempt window, recovery-token expiry, idle expiry, SMS resend limit) is within two
+// seconds of flipping. The model decides on whole seconds read at the start of the request, the
+// library on the nanosecond it reaches the comparison: such a step is not comparable.
+func (w *World) nearDeadline(browser string) bool {
+	now := time.Now()
+	near := func(t time.Time) bool {
+		if t.IsZero() {
+			return false
+		}
+		d := now.Sub(t)
+		return d > -2*time.Second && d < 2*time.Second
+	}
+	win := time.Duration(w.cfg.LockWindow) * time.Second
+	for _, k := range w.st.keys {
+		u := w.st.users[k]
+		if near(u.Locked) || near(u.RecoverTokenExpiry) || (!u.LastAttempt.IsZero() && near(u.LastAttempt.Add(win))) {
+			return true
+		}
+	}
+	j := w.sess.get(browser)
+	if s, ok := j["last_action"]; ok {
+		if t, err := time.Parse(time.RFC3339, s); err == nil && near(t.Add(time.Duration(w.cfg.ExpireAfter)*time.Second)) {
+			return true
+		}
+	}
+	if s, ok := j["sms_last"]; ok {
+		if n, err := strconv.ParseInt(s, 10, 64); err == nil && near(time.Unix(n, 0).Add(10*time.Second)) {
+			return true
+		}
+	}
+	return false
 }
 
 // ---- requests -------------------------------------------------------------------------------
